@@ -182,6 +182,8 @@ func init() {
 	props["C40"].Quick, props["C40"].Thorough = 1500, 100000
 	props["C40"].QuickS, props["C40"].ThorS = 150, 1800
 	props["C40"].Also = []string{"w2", "w3", "w7"}
+	props["C12"].Also = []string{"w6"}
+	props["C12"].Real = append(props["C12"].Real, "40% of the runs: world w6 (sequential exactness over every global parameter, about 150: after an accepted API patch of 1-6 global parameters the configuration in force differs from the previous one in exactly the fields of the payload, and each of them holds what a configuration file with the same text yields; real Core, conf.Patch*/Validate/Clone, file loader)")
 	props["C38"].Also = []string{"w6"}
 	props["C38"].Real = append(props["C38"].Real, "40% of the runs: world w6 (the watcher inside the real Core: file rewrites 0 ms..2.5 s apart, the configuration in force 5 s after the last write must be the file's; conf.Load, Core.run, reloadConf real; socket-owning components are recording stand-ins)")
 	props["C38"].LevelNote = strings.Replace(props["C38"].LevelNote, "Core's reaction is modelled by the consumer (level 2, the watcher inside Core, is not built)", "in world w2a Core's reaction is modelled by the consumer; level 2, the watcher inside the real Core, runs in world w6 with complete (never torn) file contents", 1)
